@@ -150,6 +150,47 @@ func (e EvmEngine) genLeaf(r *Run, bit int, nNodes int, v *ChainView) []PAct {
 	}
 }
 
+// genAllowanceProgram: a coherent share-allowance history inside one transaction - the root delegates and
+// grants an allowance to its child, the child spends it (within the allowance and the delegation, beyond the
+// delegation, beyond the allowance), and either of them may end dead. transferFromShares only ever succeeds
+// when such a history exists, random arguments do not produce one.
+func (e EvmEngine) genAllowanceProgram(r *Run) Program {
+	st := bst(r)
+	val := fmt.Sprintf("$valop%d", r.Rng.IntN(r.Cfg.World.Validators))
+	ends := []string{"return", "return", "return", "revert", "revert", "invalid", "burn"}
+	deleg := unitAmount(0, 1e15) // 0.001 FX
+	allow := []string{unitAmount(0, 1e14), unitAmount(0, 1e15), unitAmount(0, 1e16)}[r.Rng.IntN(3)]
+	spend := []string{unitAmount(0, 1e13), unitAmount(0, 1e14), unitAmount(0, 2e15), unitAmount(0, 1e17)}[r.Rng.IntN(4)]
+	to := fmt.Sprintf("$user%d", r.Rng.IntN(st.NUsers))
+	if r.Pct(30) {
+		to = "$node1"
+	}
+	root := PNode{End: ends[r.Rng.IntN(len(ends))]}
+	if r.Pct(60) {
+		root.End = "return"
+	}
+	root.Acts = append(root.Acts,
+		PAct{K: "pre", T: "staking", M: "delegateV2", Args: []string{val, deleg}, Bit: 0},
+		PAct{K: "pre", T: "staking", M: "approveShares", Args: []string{val, "$node1", allow}, Bit: 1})
+	ch := PAct{K: "child", Child: 1}
+	if r.Pct(50) {
+		ch.Fail = "revert"
+	}
+	if r.Pct(20) {
+		ch.Gas = uint64(60_000 + r.Rng.IntN(500_000))
+	}
+	root.Acts = append(root.Acts, ch)
+	if r.Pct(40) {
+		root.Acts = append(root.Acts, PAct{K: "pre", T: "staking", M: "allowanceShares", Args: []string{val, "$node0", "$node1"}, Bit: 4})
+	}
+	child := PNode{End: ends[r.Rng.IntN(len(ends))]}
+	child.Acts = append(child.Acts, PAct{K: "pre", T: "staking", M: "transferFromShares", Args: []string{val, "$node0", to, spend}, Bit: 2})
+	if r.Pct(40) {
+		child.Acts = append(child.Acts, PAct{K: "pre", T: "staking", M: "transferFromShares", Args: []string{val, "$node0", to, unitAmount(0, 1e13)}, Bit: 3})
+	}
+	return Program{Nodes: []PNode{root, child}}
+}
+
 func (e EvmEngine) genProgram(r *Run) Program {
 	st := bst(r)
 	v := r.W.ViewChain(r.W.Ctx(), st.Chains[0].Name)
@@ -229,6 +270,8 @@ func (e EvmEngine) genC09(r *Run) Step {
 		p := e.genProgram(r)
 		if r.Pct(25) { // contracts that touch a token directly and convert it through a precompile
 			p = e.genMixProgram(r, []string{"USDT", "WFX"}[r.Rng.IntN(2)])
+		} else if r.Pct(25) {
+			p = e.genAllowanceProgram(r)
 		}
 		bz, _ := json.Marshal(p)
 		return Step{Kind: "deploy", A: A("prog", string(bz), "deployer", KeyName("user", r.Rng.IntN(st.NUsers)), "fund_fx", FX(100).String(), "fund_usdt", 20000)}
